@@ -38,9 +38,33 @@ THEOREMS = ["c10_active_policy_was_loaded", "c10_failure_is_inert", "c10_backoff
 # --------------------------------------------------------------------------
 # rendering of model contents / tags
 # --------------------------------------------------------------------------
+S_OFF_BAD, S_OFF_DOC = 100, 200   # model stand-ins of a schema-invalid content: BBad (100+k) / BDoc (200+k)
+
+
+def s_obj(k):
+    """parsable document no. k that the bundled policy schema rejects: one single-point mutation of a valid one."""
+    rule = {"id": "r", "effect": "permit", "actions": ["read"], "resource": {"type": "doc"}}
+    m = k % 4
+    if m == 0:      # misspelt key where additionalProperties is false: the condition silently disappears
+        rule["conditon"] = {"==": [1, 2]}
+    elif m == 1:    # value outside the effect enum
+        rule["effect"] = "allow"
+    elif m == 2:    # wrong type
+        rule["actions"] = "read"
+    else:           # value outside the algorithm enum
+        return {"id": "s%d" % k, "algorithm": "first", "rules": [rule]}
+    return {"id": "s%d" % k, "rules": [rule]}
+
+
 def render(b) -> bytes:
-    """bytes of content b = ["d", n] | ["b", k]; sizes exactly as Sources.bsize."""
-    if b[0] == "d":
+    """bytes of content b = ["d", n] | ["b", k] | ["s", k]; sizes of the first two exactly as Sources.bsize.
+    ["s", k] (parsable, schema-invalid) is ["b", 100+k] for the model of a validating source and ["d", 200+k] for
+    the model of a non-validating one: all three render to the same bytes."""
+    if b[0] == "s" or (b[0] == "b" and b[1] >= S_OFF_BAD) or (b[0] == "d" and b[1] >= S_OFF_DOC):
+        k = b[1] - {"s": 0, "b": S_OFF_BAD, "d": S_OFF_DOC}[b[0]]
+        txt = json.dumps(s_obj(k))
+        size = 192 + k % 2
+    elif b[0] == "d":
         n = b[1]
         txt = "{}" if n == 0 else json.dumps({"id": "d%d" % n, "rules": []})
         size = 64 + n % 2
@@ -52,6 +76,8 @@ def render(b) -> bytes:
 
 
 def doc_obj(n):
+    if n >= S_OFF_DOC:
+        return s_obj(n - S_OFF_DOC)
     return {} if n == 0 else {"id": "d%d" % n, "rules": []}
 
 
@@ -61,7 +87,65 @@ def pol_id(p):
     if isinstance(p, dict) and isinstance(p.get("id"), str) and p["id"][:1] == "d" and p["id"][1:].isdigit() \
             and p == doc_obj(int(p["id"][1:])):
         return int(p["id"][1:])
+    if isinstance(p, dict) and isinstance(p.get("id"), str) and p["id"][:1] == "s" and p["id"][1:].isdigit() \
+            and p == s_obj(int(p["id"][1:])):
+        return S_OFF_DOC + int(p["id"][1:])
     return "?" + repr(p)[:60]
+
+
+def loadable_id(c, content):
+    """id of the document a successful load() must return while the source holds `content`; None = no loadable
+    document (missing, unparsable, or rejected by the schema when the source validates)."""
+    if content is None:
+        return None
+    if content[0] == "d":
+        return content[1]
+    if content[0] == "s" and not c.get("validate"):
+        return S_OFF_DOC + content[1]
+    return None
+
+
+def m_content(c, b):
+    """content as the model sees it."""
+    if b is not None and b[0] == "s":
+        return ["b", S_OFF_BAD + b[1]] if c.get("validate") else ["d", S_OFF_DOC + b[1]]
+    return b
+
+
+_JS_CHECKED = {}
+
+
+def speed_up_jsonschema():
+    """jsonschema.validate() re-validates the (constant) bundled schema against its metaschema on every call
+    (~80 ms); memoise that step per schema content.  The verdict on the instance is computed as before."""
+    try:
+        import jsonschema
+    except Exception:  # noqa: BLE001
+        return
+    if getattr(jsonschema.validators, "_c10_memo", False) or getattr(jsonschema.validators, "_c17_memo", False):
+        return
+    jsonschema.validators._c10_memo = True
+    for name in dir(jsonschema.validators):
+        cls = getattr(jsonschema.validators, name)
+        if isinstance(cls, type) and hasattr(cls, "check_schema") and hasattr(cls, "META_SCHEMA"):
+            orig = getattr(cls.check_schema, "__func__", None)
+            if orig is None:
+                continue
+
+            def memo(klass, schema, *a, _orig=orig, **k):
+                try:
+                    key = (klass.__name__, json.dumps(schema, sort_keys=True, default=repr))
+                except Exception:  # noqa: BLE001
+                    return _orig(klass, schema, *a, **k)
+                if key not in _JS_CHECKED:
+                    try:
+                        _orig(klass, schema, *a, **k)
+                        _JS_CHECKED[key] = None
+                    except Exception as e:  # noqa: BLE001
+                        _JS_CHECKED[key] = e
+                if _JS_CHECKED[key] is not None:
+                    raise _JS_CHECKED[key]
+            cls.check_schema = classmethod(memo)
 
 
 def md5(b):
@@ -248,7 +332,7 @@ def make_requests(world, etags, fl):
             r.raise_for_status = rfs
             return r
         b = world.store[0]
-        et = '"%s"' % md5(b)
+        et = ('W/"%s"' if fl.get("weak") else '"%s"') % md5(b)     # content-hash ETag: a roll-back re-uses the old one
         if etags and headers.get("If-None-Match") == et:
             mod.n304 += 1
             r.status_code = 304
@@ -614,6 +698,9 @@ class Setup:
         self.loader = loader
         kind = self.kind = c["kind"]
         fl = c.get("flavour", {})
+        validate = bool(c.get("validate"))
+        if validate:
+            speed_up_jsonschema()
         self.tmp = None
         self.saved_requests = sys.modules.get("requests", "absent")
         self.ft, self.fr = FakeTime(), FakeRandom()
@@ -624,7 +711,7 @@ class Setup:
                 self.tmp = tempfile.mkdtemp(prefix="c10_")
                 self.world = World(c["world"], os.path.join(self.tmp, "policy.json"), bool(fl.get("replace")))
                 from rbacx.store.file_store import FilePolicySource
-                self.src = FilePolicySource(self.world.path, include_mtime_in_etag=bool(kind[1]))
+                self.src = FilePolicySource(self.world.path, include_mtime_in_etag=bool(kind[1]), validate_schema=validate)
             else:
                 self.world = World(c["world"])
                 if kind[0] == "gen":
@@ -634,13 +721,13 @@ class Setup:
                     from rbacx.store.http_store import HTTPPolicySource
                     self.requests = make_requests(self.world, bool(kind[1]), fl)
                     sys.modules["requests"] = self.requests
-                    self.src = HTTPPolicySource("http://policies.test/policy.json")
+                    self.src = HTTPPolicySource("http://policies.test/policy.json", validate_schema=validate)
                 elif kind[0] == "s3":
                     from rbacx.store.s3_store import S3PolicySource
                     det = ["etag", "version_id", "checksum"][kind[1]]
                     pref = None if kind[2] is None else ALGO[kind[2]]
                     self.src = S3PolicySource("s3://bucket/policy.json", client=FakeS3(self.world, fl),
-                                              validate_schema=False, change_detector=det, prefer_checksum=pref)
+                                              validate_schema=validate, change_detector=det, prefer_checksum=pref)
                 else:
                     raise ValueError(kind)
             self.probe = Probe(self.src, self.world, gate)
@@ -819,10 +906,34 @@ def has_no_model(c, out):
                for cmd, info in zip(c["script"], (out or {}).get("checks") or []))
 
 
+def _m_event(c, ev):
+    return ["write", m_content(c, ev[1])] if (ev is not None and ev[0] == "write") else ev
+
+
+def m_translate(c, world, script):
+    """schema-invalid contents -> what they are for the model of this source (unloadable if it validates)."""
+    w = list(world)
+    if w[0] is not None:
+        w[0] = [m_content(c, w[0][0]), w[0][1]]
+    sc = []
+    for cmd in script:
+        if cmd[0] == "ev":
+            sc.append(["ev", _m_event(c, cmd[1])])
+        elif cmd[0] == "check":
+            sc.append(cmd[:4] + [_m_event(c, cmd[4])] + cmd[5:])
+        else:
+            sc.append(cmd)
+    return w, sc
+
+
 def model_lines(cases, outs=None):
     outs = outs or [None] * len(cases)
-    return [lib.model_call("reload.run", c["kind"], c["cfg"], bool(c["initial_load"]), bool(c["async"]), c["p0"],
-                           c["world"], model_script(c["script"], o)[0]) for c, o in zip(cases, outs)]
+    lines = []
+    for c, o in zip(cases, outs):
+        w, sc = m_translate(c, c["world"], model_script(c["script"], o)[0])
+        lines.append(lib.model_call("reload.run", c["kind"], c["cfg"], bool(c["initial_load"]), bool(c["async"]), c["p0"],
+                                    w, sc))
+    return lines
 
 
 def model_run(cases, i_outs=None):
@@ -845,6 +956,11 @@ def close_q(x, q):
     return abs(Fraction(x) - q) <= Fraction(1, 10 ** 9) * max(1, abs(q))
 
 
+def unweak(t):
+    """a weak HTTP validator W/"x" is the model's tag "x" (the source keeps and sends back the header verbatim)."""
+    return t[2:] if isinstance(t, str) and t.startswith('W/"') else t
+
+
 def compare_snap(i_s, m_s):
     """-> list of names of observables that differ."""
     bad = []
@@ -852,7 +968,7 @@ def compare_snap(i_s, m_s):
     for k, nm in enumerate(names):
         if i_s[k] != m_s[k]:
             bad.append(nm)
-    if i_s[5] != tag_str(m_s[5]):
+    if unweak(i_s[5]) != tag_str(m_s[5]):
         bad.append("last_etag")
     if i_s[6] != m_s[6]:
         bad.append("last_error is None")
@@ -903,7 +1019,8 @@ def judge(chk, c, out, m_out):
         # --- a load that succeeds hands out the document the source holds at that moment (F22: an HTTP 304 after
         #     an unparsable body "succeeded" with an older cached policy or with {})
         for x in load_ok:
-            if x[1] is None or x[1][0] != "d" or x[3] != x[1][1]:
+            want = loadable_id(c, x[1])
+            if want is None or x[3] != want:
                 viol.append(("load() succeeded although the source holds no loadable document, or returned another "
                              "document than the source holds: a broken source state replaced the active policy",
                              {"step": ix, "source_holds": x[1], "load_returned": x[3]}))
@@ -1123,6 +1240,7 @@ class Builder:
         self.clock = 1.0
         self.fresh = 10
         self.badk = 0
+        self.invk = 0
         self.cur = None if world[0] is None else list(world[0][0])
         self.prev = None
         self.flags = {"fail_etag": world[2], "fail_load": world[3], "head_fail": world[4], "attr_fail": world[5]}
@@ -1155,6 +1273,11 @@ class Builder:
         if sym == "wbad":
             self.badk += 1
             b = ["b", self.badk]
+            self._set(b)
+            return [["write", b]]
+        if sym == "winv":      # a document that parses but fails the bundled policy schema
+            self.invk += 1
+            b = ["s", self.invk]
             self._set(b)
             return [["write", b]]
         if sym == "del":
@@ -1247,6 +1370,12 @@ def init_world(kind, variant=0):
     return [[["d", 1], 1], 1, False, False, False, False, versioning, algos]
 
 
+try:
+    import jsonschema as _js  # noqa: F401  (private install under /verif/.pydeps)
+    HAVE_JSONSCHEMA = True
+except Exception:  # noqa: BLE001
+    HAVE_JSONSCHEMA = False
+
 KINDS = ([["gen", m] for m in range(4)] + [["file", False], ["file", True], ["http", True], ["http", False],
          ["s3", 0, None], ["s3", 1, None], ["s3", 2, 0], ["s3", 2, None], ["s3", 2, 3]])
 
@@ -1259,14 +1388,14 @@ def flavour_for(kind, rng):
     if kind[0] == "http":
         return {"body": rng.choice(["json", "json", "text", "content", "jsonraise"]),
                 "hkey": rng.choice(["ETag", "ETag", "etag"]), "ctype": rng.random() < 0.5,
-                "status5": rng.choice([500, 502, 503]), "etag304": rng.random() < 0.3}
+                "status5": rng.choice([500, 502, 503]), "etag304": rng.random() < 0.3, "weak": rng.random() < 0.25}
     if kind[0] == "s3":
         return {"rawetag": rng.random() < 0.3, "clienterror": rng.random() < 0.3}
     return {}
 
 
 def make_case(kind, syms, rng, fam, *, il=None, asy=None, p0=None, cfg=None, variant=None, straddle=None,
-              hows=None, det_u=False):
+              hows=None, det_u=False, validate=None):
     il = rng.random() < 0.5 if il is None else il
     asy = (kind[0] == "gen" and rng.random() < 0.4) if asy is None else asy
     variant = rng.choice([0, 0, 0, 1, 2]) if variant is None else variant
@@ -1279,8 +1408,13 @@ def make_case(kind, syms, rng, fam, *, il=None, asy=None, p0=None, cfg=None, var
         b.add(s)
     straddle = (rng.random() < 0.3) if straddle is None else straddle
     tail = b.tail(straddle)
-    return {"kind": kind, "cfg": cfg, "initial_load": il, "async": asy, "p0": p0, "world": world,
+    case = {"kind": kind, "cfg": cfg, "initial_load": il, "async": asy, "p0": p0, "world": world,
             "script": b.script, "tail": tail, "flavour": flavour_for(kind, rng), "fam": fam, "syms": list(syms)}
+    if validate is None:
+        validate = kind[0] in ("file", "http", "s3") and HAVE_JSONSCHEMA and rng.random() < 0.3
+    if validate:
+        case["validate"] = True     # the source is created with validate_schema=True
+    return case
 
 
 def gen_cases(chk):
@@ -1300,7 +1434,7 @@ def gen_cases(chk):
                 cases.append(make_case(kind, syms, rng, "enum%d" % L))
     per_kind = budget_sampled // len(KINDS)
     for kind in KINDS:
-        alpha = ALPHA[kind[0]] + EXTRA[:4]
+        alpha = ALPHA[kind[0]] + EXTRA[:4] + (["winv", "chk~winv"] if kind[0] != "gen" else [])
         for _ in range(per_kind):
             L = rng.choice([3, 4, 4, 5] if not thorough else [4, 4, 5, 5])
             syms = [rng.choice(alpha) for _ in range(L)]
@@ -1326,6 +1460,30 @@ def gen_cases(chk):
                             cases.append(make_case(kind, pre + ["%s@%s~%s" % (head, tg, ev)] + post, rng, "incall",
                                                    il=bool(len(cases) % 2), straddle=False,
                                                    hows=("sync",) if rng.random() < 0.5 else ("async",)))
+    # 1c. sources that validate against the bundled schema (validate_schema=True; and the same histories without):
+    #     a revision that parses but is rejected by the schema is published, seen by a (forced) check - also in the
+    #     middle of one -, then rolled back to the earlier revision (content-hash ETags: the earlier ETag again, so a
+    #     conditional GET answers 304), replaced by a new one, or deleted and restored; servers with strong / weak / no
+    #     ETags, S3 with its three detectors, the file source
+    if HAVE_JSONSCHEMA:
+        s_pres = [[], ["chk"], ["frc"], ["chk", "chk"]]
+        s_mids = [["winv", "chk"], ["winv", "frc"], ["chk~winv"], ["winv", "chk", "T+", "chk"], ["frc~winv", "frc"]]
+        s_backs = [["wprev"], ["wnew"], ["wprev", "T+"], ["del", "T+", "chk", "wprev"]]
+        s_fins = [["chk"], ["frc"], ["T+", "chk"], ["T+", "chk", "frc"]]
+        s_kinds = [["http", True], ["http", True], ["http", False], ["s3", 0, None], ["s3", 1, None], ["s3", 2, 0],
+                   ["file", False], ["file", True]]
+        if thorough:
+            s_pres += [["chk", "wnew", "chk"], ["chk", "T+", "touch" if False else "chk"]]
+            s_mids += [["winv", "chk", "winv", "frc"], ["wbad", "chk", "winv", "T+", "chk"]]
+            s_backs += [["wprev", "chk", "wprev"], ["winv", "wprev"]]
+        for ki, kind in enumerate(s_kinds):
+            for pre in s_pres:
+                for mid_ in s_mids:
+                    for back in s_backs:
+                        for fin in s_fins:
+                            n_ = len(cases)
+                            cases.append(make_case(kind, pre + mid_ + back + fin, rng, "schema", il=bool(n_ % 2),
+                                                   validate=(n_ // 2) % 4 != 3, straddle=False, variant=0))
     # 2. random long histories
     n_long = 4000 if thorough else 600
     for _ in range(n_long):
@@ -1333,7 +1491,7 @@ def gen_cases(chk):
         alpha = ALPHA[kind[0]] + [e for e in EXTRA if not (kind[0] != "gen" and "fe+" in e)
                                   and not (kind[0] == "file" and "fl+" in e)]
         # more checks than events
-        alpha = alpha + ["chk"] * 4 + ["T+"] * 2 + ["t+"]
+        alpha = alpha + ["chk"] * 4 + ["T+"] * 2 + ["t+"] + (["winv", "winv", "frc~winv"] if kind[0] != "gen" else [])
         if kind[0] == "file":
             alpha = alpha + ["%s@%s~%s" % (h_, t_, e_) for h_ in ("chk", "chk", "frc") for t_ in targets
                              for e_ in ("wnew", "touch")]
@@ -1787,7 +1945,7 @@ def check_cases(chk, cases, replay=False):
         for ix, (i_s, m_s) in enumerate(zip(out["snaps"], m_sel)):
             bad = compare_snap(i_s, m_s)
             i_obs, m_obs = out["obs"][ix], m_s[10]
-            if i_obs is not None and (i_obs[0] != tag_str(m_obs[0]) or i_obs[1] != m_obs[1]):
+            if i_obs is not None and (unweak(i_obs[0]) != tag_str(m_obs[0]) or i_obs[1] != m_obs[1]):
                 bad.append("HTTP source: remembered ETag / number of 304 answers (impl %r, model %r)"
                            % (i_obs, [tag_str(m_obs[0]), m_obs[1]]))
             if bad:
